@@ -124,6 +124,40 @@ WHistOf(pt, nb, rank, A) ==
 
 WHist(c) == WHistOf(PairTable(c), GBins(c), Rank(c), c.A)
 
+(***************************************************************************)
+(* Scale: a translation-invariant configuration.  When the particles fill  *)
+(* a full Bravais lattice n_1 x .. x n_d (spacing a) of an orthogonal,     *)
+(* fully periodic cell and all are selected (kind "bool", all True), every *)
+(* particle sees the same environment, so the ordered-pair count of a bin  *)
+(* is N times the count seen from ONE particle: linear instead of          *)
+(* quadratic in N.  LatticeLemma (MC_Conditional, checked by TLC on small  *)
+(* lattices) states that this shortcut equals the pair loop; the trace     *)
+(* specification uses it for lattices of a thousand particles and more,    *)
+(* where one particle has hundreds of neighbours in one coarse bin.        *)
+(***************************************************************************)
+LatSites(n, a) ==
+  IF Len(n) = 2 THEN {<<a * i, a * j>> : i \in 0..(n[1] - 1), j \in 0..(n[2] - 1)}
+  ELSE {<<a * i, a * j, a * k>> : i \in 0..(n[1] - 1), j \in 0..(n[2] - 1), k \in 0..(n[3] - 1)}
+IsFullLattice(c) ==
+  /\ "lat" \in DOMAIN c
+  /\ LET d == Len(c.H) IN
+     /\ Len(c.lat.n) = d
+     /\ \A k \in 1..d : c.ppp[k] = 1 /\ c.lat.n[k] % 2 = 1 /\
+                          \A j \in 1..d : c.H[k][j] = (IF j = k THEN c.lat.n[k] * c.lat.a ELSE 0)
+     /\ NPart(c) = ProdSeq(c.lat.n)
+     /\ {c.pos[i] : i \in 1..NPart(c)} = LatSites(c.lat.n, c.lat.a)
+     /\ c.kind = "bool" /\ \A i \in 1..NPart(c) : c.A[i] = <<1, 0>>
+WHistLat(c) ==
+  LET p   == PHC(c)
+      N   == NPart(c)
+      pt1 == TLCEval([m \in 1..(N - 1) |-> [i |-> 1, j |-> m + 1, bins |-> PH!PairBins(p, 1, 1, m + 1)]])
+      h1  == WHistOf(pt1, GBins(c), 0, c.A)
+  IN  [ w   |-> [k \in 1..GBins(c) |-> (N * h1.w[k]) \div 2],
+        cnt |-> [k \in 1..GBins(c) |-> (N * h1.cnt[k]) \div 2],
+        tie |-> [k \in 1..GBins(c) |-> (N * h1.tie[k]) \div 2],
+        nt  |-> (N * h1.nt) \div 2, cj |-> 0, tr |-> 0 ]
+WHistAuto(c) == IF IsFullLattice(c) THEN WHistLat(c) ELSE WHist(c)
+
 \* the definition sums over ORDERED pairs i # j: twice the unordered sum iff the weight is symmetric
 OrderedW(h, k) == 2 * h.w[k]
 OrderedN(h, k) == 2 * h.cnt[k]
